@@ -297,6 +297,17 @@ class FuncTracer:
         return False
 
 
+def require_exhaustive(res, ex):
+    """the path summary must cover the precondition (pre and not(pc_1 or .. or pc_k) unsat); otherwise nothing is claimed"""
+    res['obligations'] += 1
+    if ex.exhaustive():
+        res['discharged'] += 1
+        return True
+    res['status'] = HARNESS_ERROR
+    res['notes'].append('path summary is not exhaustive')
+    return False
+
+
 def absorb(res, ex):
     """add the statistics of an Exploration to an instance result"""
     res['paths'] += len(ex.paths)
